@@ -35,6 +35,7 @@ type wrScenario struct {
 	Policy   string  `json:"policy"`   // random | pct | free
 	Seed     int64   `json:"seed"`
 	Points   string  `json:"points"`   // all | pub
+	InvAll   int     `json:"invall"`   // InvalidateAll calls by an extra goroutine
 }
 
 type wrWrite struct {
@@ -300,6 +301,15 @@ func runWRScenario(sc wrScenario) wrAudit {
 			m := m
 			go func() { defer wg.Done(); c.SetMaximum(uint64(m)) }()
 		}
+		if sc.InvAll > 0 {
+			wg.Add(1)
+			go func() {
+				defer wg.Done()
+				for i := 0; i < sc.InvAll; i++ {
+					c.InvalidateAll()
+				}
+			}()
+		}
 		wg.Wait()
 		verifhookInstall(nil)
 	} else {
@@ -310,6 +320,16 @@ func runWRScenario(sc wrScenario) wrAudit {
 			s.Filter = func(id string) bool { return wrPubPoints[id] }
 		} else {
 			s.Filter = func(id string) bool { return wrPubPoints[id] || drainPoints[id] }
+		}
+		if sc.InvAll > 0 {
+			// InvalidateAll snapshots the table and then removes node by node: writers must be able to run in between
+			inner := s.Filter
+			s.Filter = func(id string) bool { return inner(id) || id == "cp.lock" || id == "ia.lock" || id == "ia.unlock" }
+			s.Go("ia", func() {
+				for i := 0; i < sc.InvAll; i++ {
+					c.InvalidateAll()
+				}
+			})
 		}
 		for w := 1; w <= sc.Writers; w++ {
 			s.Go("w"+strconv.Itoa(w), body(w, rand.New(rand.NewSource(sc.Seed*31+int64(w)))))
